@@ -179,9 +179,17 @@ def rewrite_form(gf_element, form):
              paragraph has <a:endParaRPr lang="en-US" dirty="0"/> after its runs;
     ppr:     an empty paragraph carrying only properties, <a:p><a:pPr algn="ctr"/></a:p> (text paragraphs
              get the same a:pPr as first child);
+    spans:   rowSpan="1" gridSpan="1" hMerge="0" vMerge="0" (the defaults) written on every cell;
     notblpr: the optional a:tblPr removed (the API-built table already has the PowerPoint form of a:tblPr:
              firstRow/bandRow attributes + a:tableStyleId child)."""
     tbl = gf_element.find(".//" + A + "tbl")
+    if form == "spans":
+        # every unmerged cell spells out the schema defaults of the span attributes (legal; some producers do)
+        for tc in tbl.iter(A + "tc"):
+            for k, v in (("rowSpan", "1"), ("gridSpan", "1"), ("hMerge", "0"), ("vMerge", "0")):
+                if tc.get(k) is None:
+                    tc.set(k, v)
+        return
     if form == "notblpr":
         for el in tbl.findall(A + "tblPr"):
             tbl.remove(el)
@@ -344,8 +352,23 @@ def ops_for(cfg, restricted_orientation=False):
 
 # ---- implementation driver ------------------------------------------------------------------------
 
+_SPAN_DEFAULTS = {"rowSpan": ("1",), "gridSpan": ("1",), "hMerge": ("0", "false"), "vMerge": ("0", "false")}
+
+
 def c14n(el):
-    return etree.tostring(el, method="c14n")
+    """c14n for "nothing changed" comparisons. A span attribute written with its schema default (rowSpan="1",
+    hMerge="0" ...) means the same as the absent attribute, so it is dropped first: an operation that merely
+    normalises the spelling has changed nothing (the 'api/spans' form makes the difference visible)."""
+    if el.find(".//" + A + "tc[@rowSpan]") is None and el.find(".//" + A + "tc[@gridSpan]") is None \
+            and el.find(".//" + A + "tc[@hMerge]") is None and el.find(".//" + A + "tc[@vMerge]") is None:
+        return etree.tostring(el, method="c14n")
+    import copy
+    cp = copy.deepcopy(el)
+    for tc in cp.iter(A + "tc"):
+        for k, dflt in _SPAN_DEFAULTS.items():
+            if tc.get(k) in dflt:
+                del tc.attrib[k]
+    return etree.tostring(cp, method="c14n")
 
 
 def canon_of(gf_element):
@@ -951,6 +974,7 @@ def make_cfgs(thorough, have_ph, corpus_tables=()):
             cfgs.append(("api/endpara", r, c, "nondiv", "nondiv", "mixed", d3, 0, 0))
             cfgs.append(("api/ppr", r, c, "nondiv", "nondiv", "mixed", d2, 0, 0))
             cfgs.append(("api/notblpr", r, c, "nondiv", "nondiv", "letters", d2, 0, 0))
+            cfgs.append(("api/spans", r, c, "nondiv", "nondiv", "letters", d2, 0, 0))
     cfgs.extend(product_cfgs(thorough))
     # tables of the PowerPoint-authored corpus decks, as they are; size assignments on every one of them (their
     # frame need not equal the sum to begin with), the caller's frame resize interleaved on the small ones
